@@ -494,7 +494,9 @@ def evaluate__ceiling_and_floor_functions(self: XPathFunction, context: ta.Conte
         arg = self.number_value(arg)
 
     try:
-        if math.isnan(arg) or math.isinf(arg):
+        if isinstance(arg, int):
+            return arg  # math.isnan/isinf overflow on integers beyond the xs:double range
+        elif math.isnan(arg) or math.isinf(arg):
             assert isinstance(arg, (int, float, decimal.Decimal))
             return arg
 
